@@ -28,7 +28,7 @@ class Unsupported(Exception):
 # kinds: 'int' 'bool' 'str' 'list' 'dict' 'mv' 'coef' 'fun' 'alg' 'tuple' 'opt:<kind>' 'signs' None(unknown)
 class T:
     """a translation target"""
-    def __init__(self, file, qual, lean, params, ret, locals=None, tparams='', uses_alg=False, coef=False, self_name=None, uses_ops=False, uses_mops=False, consts=None, state=None, externals=None, drop_assign=(), env=None, state_type=None, region=None, self_locals=(), strkey=(), extra_params=()):
+    def __init__(self, file, qual, lean, params, ret, locals=None, tparams='', uses_alg=False, coef=False, self_name=None, uses_ops=False, uses_mops=False, consts=None, state=None, externals=None, drop_assign=(), env=None, state_type=None, region=None, self_locals=(), strkey=(), extra_params=(), skip_if=()):
         self.file, self.qual, self.lean = file, qual, lean
         self.params = params          # list of (pyname, leantype, kind)
         self.ret = ret
@@ -41,6 +41,7 @@ class T:
         self.uses_ops = uses_ops      # gets an `(ops : Ops α)` parameter: the algebra's operators on multivectors
         self.elem_kind = {}
         self.extra_params = list(extra_params)   # what `self` carries besides the algebra (e.g. the keys of a multivector)
+        self.skip_if = set(skip_if)   # `if <text>:` statements that only normalise the calling convention (e.g. grade((1, 2)) vs grade(1, 2)): dropped
         self.is_property = False      # a cached_property: read as an attribute
         self.items_kinds = {}         # dict variable -> 'keykind,valuekind' of its items
         self.region = region          # translate only the `if <region>:` statement of the function, as a function of its own
@@ -108,13 +109,36 @@ TARGETS = [
       locals={'num': (MV, 'mv')}, tparams=COEF, uses_alg=True, uses_ops=True, consts={'symbolic': True}, self_name='alg'),
     T('kingdon/algebra.py', 'Algebra._blade2canon', 'blade2canon', [('basis_blade', 'List Char', 'str')], 'List Char × Int',
       uses_alg=True, self_name='self', locals={'bin': ('Int', 'int')}),
+    # ---- the zero filter of symbolic results (operator_dict.py) ----
+    T('kingdon/operator_dict.py', 'OperatorDict.filter', 'od_filter', [('keys_out', 'List Int', 'list:int'), ('values_out', 'List α', 'list:coef')],
+      'List Int × List α', tparams='{α : Type} [Py.Truthy α]', self_name='self', extra_params=[('simp_func', 'α → α')],
+      externals={'self.algebra.simp_func': ('simp_func', 'fun')}, locals={}),
+    # ---- coefficient accessors of MultiVector (multivector.py); `self` is (algebra, keys, values) ----
+    T('kingdon/multivector.py', 'MultiVector.__getattr__', 'mv_getattr', [('basis_blade', 'List Char', 'str')], 'α',
+      tparams='{α : Type} [Neg α] [Zero α]', uses_alg=True, self_name='self', extra_params=[('self_keys', 'List Int'), ('self_values', 'List α')],
+      externals={'self.keys()': ('self_keys', 'list:int'), 'self._values': ('self_values', 'list:coef'),
+                 "re.match('^e[0-9a-fA-F]*$', basis_blade)": ('(Py.isBladeName basis_blade)', 'bool'),
+                 'return:0': ('(0 : α)', 'coef')},
+      locals={'idx': ('Int', 'int')}),
+    T('kingdon/multivector.py', 'MultiVector.asfullmv', 'mv_asfullmv', [('canonical', 'Bool', 'bool')], 'List Int × List α',
+      tparams='{α : Type} [Neg α] [Zero α]', uses_alg=True, self_name='self', extra_params=[('self_keys', 'List Int'), ('self_values', 'List α')],
+      externals={'self.algebra.indices_for_grades[tuple(range(self.algebra.d + 1))]': ('(← alg.indices_for_grades (Py.range (0 : Int) (alg.d + (1 : Int))))', 'list:int'),
+                 'len(self.algebra)': ('alg.len', 'int'),
+                 'return:self.fromkeysvalues(self.algebra, keys=keys, values=values)': ('(keys, values)', 'tuple')},
+      locals={'keys': ('List Int', 'list:int')}),
+    T('kingdon/multivector.py', 'MultiVector.grade', 'mv_grade', [('grades', 'List Int', 'list:int')], 'List Int × List α',
+      tparams='{α : Type} [Neg α] [Zero α]', uses_alg=True, self_name='self', extra_params=[('self_keys', 'List Int'), ('self_values', 'List α')],
+      externals={'self.keys()': ('self_keys', 'list:int'),
+                 'self.algebra.indices_for_grades[grades]': ('(← alg.indices_for_grades grades)', 'list:int'),
+                 'return:self.fromkeysvalues(self.algebra, tuple(vals.keys()), list(vals.values()))': ('(Py.dictKeys vals, Py.dictValues vals)', 'tuple')},
+      skip_if=['len(grades) == 1 and isinstance(grades[0], tuple)']),
     # ---- names of generated functions (multivector.py): type_number / type_name ----
     T('kingdon/multivector.py', 'MultiVector.type_number', 'type_number', [], 'Int', uses_alg=True, self_name='self',
-      externals={'self.keys()': ('keys', 'list:int'), 'self.algebra.canon2bin.values()': ('(Py.dictValues alg.canon2bin)', 'list:int')},
-      extra_params=[('keys', 'List Int')]),
+      externals={'self.keys()': ('self_keys', 'list:int'), 'self.algebra.canon2bin.values()': ('(Py.dictValues alg.canon2bin)', 'list:int')},
+      extra_params=[('self_keys', 'List Int')]),
     T('kingdon/multivector.py', 'MultiVector.type_name', 'type_name', [], 'List Char', uses_alg=True, self_name='self',
-      externals={'self.keys()': ('keys', 'list:int'), 'self.algebra.canon2bin.values()': ('(Py.dictValues alg.canon2bin)', 'list:int')},
-      extra_params=[('keys', 'List Int')], locals={'keys': ('List Int', 'list:int')}),
+      externals={'self.keys()': ('self_keys', 'list:int'), 'self.algebra.canon2bin.values()': ('(Py.dictValues alg.canon2bin)', 'list:int')},
+      extra_params=[('self_keys', 'List Int')], locals={'keys': ('List Int', 'list:int')}),
     # ---- the naming part of Algebra.__post_init__: one region of the method as a function ----
     T('kingdon/algebra.py', 'Algebra.__post_init__', 'post_init_names',
       [('basis', 'List (List Char)', 'list:str'), ('d', 'Int', 'int'), ('start_index', 'Int', 'int')],
@@ -157,6 +181,7 @@ for _t in TARGETS:
         _t.ret_names = ['start_index', 'canon2bin', 'bin2canon']
         _t.items_kinds = {'canon2bin': 'str,int', 'bin2canon': 'int,str'}
 BY_PY = {t.qual.split('.')[-1]: t for t in TARGETS}
+BY_PY['__getattr__'] = next(t for t in TARGETS if t.lean == 'mv_getattr')
 
 HEADER = '''/-
   GENERATED by harness/pytolean.py from the current text of /repo/kingdon/{algebra,codegen}.py — do not edit.
@@ -179,6 +204,7 @@ structure Alg where
   signature : List Int
   start_index : Int
   d : Int
+  indices_for_grades : List Int → Py.M (List Int)
 
 /-- the algebra's operators on multivectors as the composite generators use them (`x * y`, `~x`, `x | y`,
     `x.conjugate()`, `x.grade(..)`, `2 * x`, `x.e`, `alg.blades.e`, `alg.pss`): parameters of the translation -/
@@ -331,7 +357,7 @@ class Tr:
         """`self`, `algebra`, `alg`, `x.algebra`"""
         if isinstance(node, ast.Name) and self.kinds.get(node.id) == 'alg':
             return True
-        if isinstance(node, ast.Attribute) and node.attr == 'algebra' and isinstance(node.value, ast.Name) and self.kinds.get(node.value.id) == 'mv':
+        if isinstance(node, ast.Attribute) and node.attr == 'algebra' and isinstance(node.value, ast.Name) and self.kinds.get(node.value.id) in ('mv', 'alg'):
             return True
         return False
 
@@ -486,6 +512,12 @@ class Tr:
                 self.t.externals[key] = (code, kind)
             b, kb = self.sub_do(node.orelse)
             return f'(match {code} with | some w__ => {a} | none => {b})', ka or kb
+        if isinstance(node, ast.IfExp) and isinstance(node.test, ast.Name) and isinstance(node.body, ast.Call) and isinstance(node.body.func, ast.Name) \
+                and node.body.func.id == 'zip' and len(node.body.args) == 1 and isinstance(node.body.args[0], ast.Starred) \
+                and isinstance(node.body.args[0].value, ast.Name) and node.body.args[0].value.id == node.test.id \
+                and ast.unparse(node.orelse) in ('(tuple(), list())', '((), [])', '(tuple(), tuple())'):
+            # `zip(*pairs) if pairs else ((), [])`: the two columns of a list of pairs
+            return f'(Py.unzip {node.test.id})', 'tuple'
         if isinstance(node, ast.IfExp):
             t = self.truth(node.test)
             a, ka = self.sub_do(node.body)
@@ -513,6 +545,8 @@ class Tr:
                 return 'alg', 'alg'
             if self.is_alg(node.value):
                 attr = node.attr
+                if attr == 'algebra':
+                    return 'alg', 'alg'
                 if attr in ('signs',):
                     return 'alg.signs', 'signs'
                 if attr == 'bin2canon':
@@ -690,7 +724,7 @@ class Tr:
         return c, k
 
     def dictcomp(self, node):
-        if len(node.generators) != 1 or node.generators[0].ifs or node.generators[0].is_async:
+        if len(node.generators) != 1 or len(node.generators[0].ifs) > 1 or node.generators[0].is_async:
             raise Unsupported('dict comprehension form')
         g = node.generators[0]
         it, kit = self.E(g.iter)
@@ -699,6 +733,13 @@ class Tr:
         self.bind_pat_kinds(g.target, g.iter)
         self.comp_target_kinds(g.target, g.iter, kit) if (kit or '').startswith(('items:', 'list:')) or (
             isinstance(g.iter, ast.Call) and isinstance(g.iter.func, ast.Name) and g.iter.func.id in ('enumerate', 'range')) else None
+        cond = None
+        if g.ifs:
+            npre = len(self.pre)
+            cond = self.truth(g.ifs[0])
+            if len(self.pre) != npre or '←' in cond:
+                raise Unsupported('dict comprehension filter that binds or raises')
+            it = f'(({it}).filter (fun {pat} => {cond}))'
         outer_pre, self.pre = self.pre, []
         k, kk = self.E(node.key)
         v, kvv = self.E(node.value)
@@ -778,6 +819,8 @@ class Tr:
                 return f'(Py.dictOf {c0})', ('dictkv:' + k0[6:] if (k0 or '').startswith('items:') else 'dict')
             if n == 'Fraction' and len(args) == 2 and not kw:
                 return f'({self.E(args[0])[0]}, {self.E(args[1])[0]})', 'tuple'
+            if n == 'getattr' and len(args) == 2 and isinstance(args[0], ast.Name) and args[0].id == 'self' and '__getattr__' in BY_PY:
+                return self.call_target(BY_PY['__getattr__'], [args[1]], {})
             if n == 'all' and len(args) == 1 and not kw:
                 return f'(({self.E(args[0])[0]}).all id)', 'bool'
             if n == 'min' and len(args) == 1 and not kw:
@@ -821,6 +864,8 @@ class Tr:
             if self.kinds.get(n) == 'funcobj' and self.t.env and not kw:
                 return f'(← env.apply {n} ' + ' '.join(self.E(a)[0] for a in args) + ')', None
             raise Unsupported(f'call of {n}')
+        if isinstance(f, ast.Attribute) and self.is_alg(f.value) and f.attr in BY_PY and not BY_PY[f.attr].is_property:
+            return self.call_target(BY_PY[f.attr], args, kw)
         if isinstance(f, ast.Attribute):
             # bin(k).count('1')
             if f.attr == 'count' and isinstance(f.value, ast.Call) and isinstance(f.value.func, ast.Name) and f.value.func.id == 'bin' \
@@ -882,6 +927,8 @@ class Tr:
         fn = FUNCS[tgt.qual]
         names = [a.arg for a in fn.args.args]
         defaults = dict(zip(names[len(names) - len(fn.args.defaults):], fn.args.defaults))
+        if (tgt.env or tgt.self_name == 'self') and names[:1] == ['self']:
+            names = names[1:]
         given = dict(zip(names, args))
         for k, v in kw.items():
             if k not in names:
@@ -1007,7 +1054,16 @@ class Tr:
                         return self.flush(ind) + [f'{ind}{self.pat(tg)} := {c}']
                     raise Unsupported('tuple re-assignment of an immutable name')
                 if any(n in self.declared for n in names):
-                    raise Unsupported('tuple re-assignment')
+                    # some of the targets exist already (e.g. a parameter that is re-bound): go through a temporary
+                    if not all(isinstance(e, ast.Name) for e in tg.elts):
+                        raise Unsupported('nested tuple re-assignment')
+                    tmp = self.fresh('tup')
+                    out = self.flush(ind) + [f'{ind}let {tmp} := {c}']
+                    n_el = len(tg.elts)
+                    for i, e in enumerate(tg.elts):
+                        proj = tmp + ''.join('.2' for _ in range(i)) + ('.1' if i < n_el - 1 else '')
+                        out.append(ind + self.bind(e.id, proj, None))
+                    return out
                 for n in names:
                     self.declared.add(n)
                 mut = 'mut ' if any(n in self.mutable for n in names) else ''
@@ -1045,7 +1101,8 @@ class Tr:
         if isinstance(st, ast.Return):
             if st.value is None:
                 raise Unsupported('bare return')
-            c, _ = self.E(st.value)
+            key = 'return:' + ast.unparse(st.value)
+            c = self.t.externals[key][0] if key in self.t.externals else self.E(st.value)[0]
             return self.flush(ind) + [f'{ind}return {c}']
         if isinstance(st, ast.Continue):
             return [ind + 'continue']
@@ -1072,6 +1129,8 @@ class Tr:
             self.kinds = {**saved, **{k: v for k, v in self.kinds.items() if k in saved or k in self.mutable}}
             self.declared = dsaved | {n for n in self.declared if n in self.mutable and n in dsaved}
             return out + body
+        if isinstance(st, ast.If) and ast.unparse(st.test) in self.t.skip_if:
+            return []
         if isinstance(st, ast.If):
             # the default-filling idiom:  if not p: p = <expr>     (p an optional parameter)
             if isinstance(st.test, ast.UnaryOp) and isinstance(st.test.op, ast.Not) and isinstance(st.test.operand, ast.Name) \
@@ -1126,6 +1185,32 @@ class Tr:
                 out += self.block(st.orelse, ind + '  ')
                 self.declared = set(dsaved)
             return out
+        if isinstance(st, ast.Try):
+            if st.orelse or st.finalbody or len(st.handlers) != 1 or len(st.body) != 1 or not isinstance(st.body[0], ast.Assign) \
+                    or len(st.body[0].targets) != 1 or not isinstance(st.body[0].targets[0], ast.Name):
+                raise Unsupported('try form')
+            h = st.handlers[0]
+            if h.name is not None or h.type is None:
+                raise Unsupported('except form')
+            excs = [h.type.id] if isinstance(h.type, ast.Name) else [e.id for e in h.type.elts] if isinstance(h.type, ast.Tuple) else None
+            if not excs or not isinstance(h.body[-1], (ast.Return, ast.Raise)):
+                raise Unsupported('except form')
+            nm = st.body[0].targets[0].id
+            c, k = self.E(st.body[0].value)
+            pre = self.flush(ind)
+            r = self.fresh('tried')
+            cond = ' || '.join(f'e == "{x}"' for x in excs)
+            out = pre + [f'{ind}let {r} ← tryCatch (do pure (some {c})) (fun e => if {cond} then pure none else throw e)']
+            out.append(f'{ind}let some {nm} := {r}')
+            dsaved = set(self.declared)
+            hb = self.block(h.body, ind + '    ')
+            self.declared = dsaved
+            out.append(f'{ind}  | do')
+            out += hb
+            self.declared.add(nm)
+            if k is not None:
+                self.kinds[nm] = k
+            return out
         if isinstance(st, ast.Pass):
             return [ind + 'pure ()']
         raise Unsupported(f'statement {type(st).__name__}')
@@ -1153,7 +1238,7 @@ class Tr:
             ps.append('(ops : MatOps μ)')
         ps += [f'({p} : {ty})' for p, ty in t.extra_params]
         ps += [f'({p} : {ty})' for p, ty, _ in t.params]
-        names = [a.arg for a in self.fn.args.args]
+        names = [a.arg for a in self.fn.args.args] + ([self.fn.args.vararg.arg] if self.fn.args.vararg else [])
         if (t.env or t.self_name == 'self') and names[:1] == ['self']:
             names = names[1:]
         sig_changed = [n_ for n_ in names if n_ not in t.consts] != [p for p, _, _ in t.params]
